@@ -26,7 +26,7 @@ def elems(g):
 def run(c):
     thorough = c.tier == "thorough"
     rng = c.rng
-    gen = mc_codec(c, 2, shards=9, liveness=False) if thorough else mc_codec(c, 1, shards=3, liveness=False)
+    gen = mc_codec(c, 2, shards=9, liveness=False) if thorough else mc_codec(c, 1, shards=3, liveness=False, deep=deep_messages(c, 8))
     drv = c.build_driver("codec")
     cases, seen = [], set()
 
